@@ -246,6 +246,9 @@ def one(rec, hub, seed, tier, kind, i):
     if kind == "system":
         system_io(rec, hub, rng, i)
         return
+    if kind == "noop":
+        noop_requests(rec, hub, rng, i)
+        return
     if kind == "program":
         letters = "abcd" if i % 3 else "abc"
         program.run_program(rec, hub, rng, 60 if tier == "quick" else 120, letters=letters, ill_rate=0.3, props=PROPS)
@@ -258,11 +261,45 @@ def one(rec, hub, seed, tier, kind, i):
         drv.do_errors(hub, U, sub, rng)
 
 
+def noop_requests(rec, hub, rng, i):
+    """requests that leave nothing to compute - sums over dimensions with a single item or over no dimension at all, a cast to the
+    dimensions the array already has (in its own or another order), a slice that selects every item, shares over single-item dimensions,
+    arithmetic with a scalar array: the result is an array of its own all the same (judged by the independence probes in the wrapper)"""
+    fd = hub.fd
+    lens = [(1, 3, 2), (2, 1, 1), (1, 1, 1), (3, 2, 1), (1, 2, 1, 3)][i % 5]
+    letters = "abcd"[: len(lens)]
+    U = gen.universe(fd, dict(zip(letters, lens)), rng=rng)
+    order = [str(q) for q in rng.permutation(list(letters))]
+    x = fd.FlodymArray(dims=gen.dimset(fd, U, order), values=gen.values_one("dyadic", rng, gen.shape_of(U, order)) + 1.0)
+    ones = [l for l in order if len(U[l].items) == 1]
+    many = [l for l in order if len(U[l].items) > 1]
+    calls = [lambda: x.sum_over(tuple(ones)), lambda: x.sum_over(()), lambda: x.sum_to(tuple(order)), lambda: x.sum_to(tuple(many)), lambda: x.sum_to(tuple(reversed(order))),
+             lambda: x.cast_to(x.dims), lambda: x.cast_to(gen.dimset(fd, U, order[::-1])), lambda: x.get_shares_over(tuple(ones)) if ones else None, lambda: x[...], lambda: x[{}],
+             lambda: x[{l: U[l].items[0] for l in ones}] if ones else None, lambda: x[{order[0]: fd.Dimension(letter=order[0].upper(), name="all of " + U[order[0]].name, items=list(U[order[0]].items))}],
+             lambda: x + fd.FlodymArray(dims=fd.DimensionSet(dim_list=[]), values=np.array(0.0)), lambda: x * 1.0, lambda: x.apply(lambda v: v), lambda: x.copy(), lambda: x.cumsum(ones[0]) if ones else None,
+             lambda: x.abs(), lambda: x.sign() if hasattr(x, "sign") else None]
+    for c_ in calls:
+        for spelled in (False, True):
+            try:
+                r = c_()
+            except Exception:
+                continue
+            if r is None:
+                break
+    for l in ones[:1]:
+        for spell in (l, U[l].name):
+            try:
+                x.sum_over(spell), x.sum_over((spell,)), x.sum_over([spell])
+            except Exception:
+                pass
+    rec.event("noop-requests", sig=f"{lens}|{order}", cls=f"noop|{len(ones)} single-item dims of {len(order)}")
+
+
 def run(rec, hub, tier, seed, shard, nshards, budget):
     inv.register(hub, PROPS)
     rec.require(program.MP15, 100)
     n_prog = 220 if tier == "quick" else 1500
-    work = interleave([("program", i) for i in range(n_prog)], [("whole", i) for i in range(40 if tier == "quick" else 200)], [("frames", i) for i in range(150 if tier == "quick" else 1000)], [("system", i) for i in range(25 if tier == "quick" else 150)])
+    work = interleave([("program", i) for i in range(n_prog)], [("whole", i) for i in range(40 if tier == "quick" else 200)], [("frames", i) for i in range(150 if tier == "quick" else 1000)], [("system", i) for i in range(25 if tier == "quick" else 150)], [("noop", i) for i in range(30 if tier == "quick" else 200)])
     for w, (kind, i) in enumerate(work):
         if not budget.ok():
             break
